@@ -79,8 +79,17 @@ def _replay_worker(modnames, target, inputs, clause, q):
         c = reg.contracts[target]
         r = c.replay(inputs, clause)
         q.put(("ok", r))
-    except Exception:
-        q.put(("error", traceback.format_exc()))
+    except BaseException as e:
+        import traceback as tb
+
+        frames = tb.extract_tb(e.__traceback__)
+        inner = frames[-1].filename if frames else ""
+        in_repo = any(f.filename.startswith(extract.REPO + os.sep) for f in frames)
+        if in_repo and not isinstance(e, (KeyboardInterrupt, SystemExit)):
+            where = [f for f in frames if f.filename.startswith(extract.REPO + os.sep)][-1]
+            q.put(("ok", f"real code raised {type(e).__name__}: {e} at {os.path.relpath(where.filename, extract.REPO)}:{where.lineno} (not allowed by the contract)"))
+        else:
+            q.put(("error", traceback.format_exc()))
 
 
 def replay(modnames, target, inputs, clause, timeout=120):
